@@ -94,6 +94,7 @@ func checkTestSwitches(p *load.Program, r *kit.Report, rule string, names ...str
 }
 
 func checkC02(p *load.Program, r *kit.Report) {
+	importRules(p, r, "C01", "the required bits are computed from the accumulated work stored with earlier headers: a stored work value must never change after acceptance", 4, nil, "WORK-FLOW")
 	r.NotDecided = "that every real-chain header is accepted (numerical); ConvertToBits/ConvertToWork arithmetic inside the dependency; absence of every panic (containment is decided under C15)."
 	r.Rule("WRITERS", "disableDifficulty / disableSplitProtection are set true only in functions without any caller or reference in the production program", 2)
 	r.Rule("GUARD-DOM", "under disableDifficulty=false every effect of ProcessHeader is dominated by header.WorkIsValid()'s true edge, and every path through height >= 556767 passes bits == header.Bits with bits = ConvertToBits(previousBranch.Target(height), MaxBits), height = previousHeight+1, previousBranch = Find(header.PrevBlock)", 4)
@@ -377,7 +378,7 @@ func checkTarget(p *load.Program, r *kit.Report) {
 					continue
 				}
 				for _, got := range outs {
-					if got == want {
+					if got == want || got == evalReturned {
 						continue
 					}
 					msg := fmt.Sprintf("a time span of %d is divided by as %d, want %d", v, got, want)
@@ -538,6 +539,20 @@ func evalSlice(from ssa.Value, v int64, until ssa.Instruction, result ssa.Value)
 			start = i + 1
 		}
 	}
+	// when `from` is a load of a local that is filled through its address (binary.Read(&x)),
+	// every later load of that local is the same value
+	var fromCell ssa.Value
+	if u, ok := from.(*ssa.UnOp); ok && u.Op == token.MUL {
+		if a, ok := u.X.(*ssa.Alloc); ok {
+			fromCell = a
+		}
+	}
+	// or `from` is the binary.Read call that fills the local
+	if c, ok := from.(*ssa.Call); ok && kit.CallID(c) == "encoding/binary.Read" && len(c.Call.Args) == 3 {
+		if a, ok := kit.Strip(c.Call.Args[2]).(*ssa.Alloc); ok {
+			fromCell = a
+		}
+	}
 	var eval func(env map[ssa.Value]int64, x ssa.Value) (int64, bool)
 	eval = func(env map[ssa.Value]int64, x ssa.Value) (int64, bool) {
 		if k, ok := kit.ConstInt(x); ok {
@@ -545,6 +560,9 @@ func evalSlice(from ssa.Value, v int64, until ssa.Instruction, result ssa.Value)
 		}
 		if k, ok := env[x]; ok {
 			return k, true
+		}
+		if u, ok := x.(*ssa.UnOp); ok && u.Op == token.MUL && fromCell != nil && u.X == fromCell {
+			return env[from], true
 		}
 		switch y := x.(type) {
 		case *ssa.Convert:
@@ -605,6 +623,14 @@ func evalSlice(from ssa.Value, v int64, until ssa.Instruction, result ssa.Value)
 						s.env[x] = a - b
 					case token.MUL:
 						s.env[x] = a * b
+					case token.QUO:
+						if b != 0 {
+							s.env[x] = a / b
+						}
+					case token.REM:
+						if b != 0 {
+							s.env[x] = a % b
+						}
 					case token.LSS:
 						s.env[x] = b2i(a < b)
 					case token.LEQ:
@@ -626,6 +652,10 @@ func evalSlice(from ssa.Value, v int64, until ssa.Instruction, result ssa.Value)
 					}
 				}
 			case *ssa.Return, *ssa.Panic:
+				if !seen[evalReturned] {
+					seen[evalReturned] = true
+					outs = append(outs, evalReturned)
+				}
 				s.i = len(s.b.Instrs)
 				continue
 			case *ssa.Jump:
@@ -638,6 +668,17 @@ func evalSlice(from ssa.Value, v int64, until ssa.Instruction, result ssa.Value)
 				}
 				if c, ok := s.env[x.Cond]; ok {
 					s = st{s.b.Succs[int(1-c)], 0, s.b, s.env}
+					continue
+				}
+				// an error test of an intermediate call: the slice is evaluated along the path on
+				// which that call succeeded
+				if bo, ok := x.Cond.(*ssa.BinOp); ok && (bo.Op == token.NEQ || bo.Op == token.EQL) && kit.IsNilConst(bo.Y) &&
+					types.Identical(bo.X.Type(), types.Universe.Lookup("error").Type()) {
+					succ := 1 // err != nil false
+					if bo.Op == token.EQL {
+						succ = 0
+					}
+					s = st{s.b.Succs[succ], 0, s.b, s.env}
 					continue
 				}
 				cp := map[ssa.Value]int64{}
@@ -656,6 +697,9 @@ func evalSlice(from ssa.Value, v int64, until ssa.Instruction, result ssa.Value)
 	}
 	return outs, ""
 }
+
+// evalReturned is reported by evalSlice for a path that leaves the function before `until`.
+const evalReturned = int64(-1) << 62
 
 func b2i(b bool) int64 {
 	if b {
